@@ -22,6 +22,7 @@ func init() {
 			"R2: the package calls only Create, CasByVersion, Delete, WaitForVersionChange and Get on the storage (never Put/PutMany), and the renewal CAS carries the tenure's version. " +
 			"R3: Storage.Delete is dominated by the true edge of CompareAndSwap(held,1,0) on the same Locker. R4: every storage call uses the Locker's own key field, which is stored only by NewLocker. R5: the held flag is touched only through sync/atomic. " +
 			"L1: the lock record is always written with ExpiresAt = now + lease, the clock read at the time of the write (a record born expired lets a second caller in). S1/S2: the in-memory storage the lockers race on executes every operation as one critical section and lets Create succeed only on the key-absent edge. " +
+			"R7: the lease renewal writes only by CasByVersion. R8: an attempt that ran its failure epilogue (token given back) cannot report success. " +
 			"R6: a tenure issues at most one Delete (a by-key delete repeated after a lost reply removes a successor's record).",
 		NotDecided: "exclusion itself over interleavings and fault placements (needs C02 for the storage and the lease assumption).",
 	})
@@ -33,6 +34,7 @@ func init() {
 		Explanation: "R1: after the local token was taken every failure exit of TryLock/LockWithCtx/Lock gives the token back and resets the held flag. R2: every normal exit of Unlock passes Storage.Delete(key) and a token send. " +
 			"R3: on the ErrExist edge the loop waits with WaitForVersionChange(ctx,key,v), v the version returned by the failed Create, and goes round again on a fresh ctx.Err(). " +
 			"R4: the token helpers return nil only on the 'still open' edge of a shutdown test made after taking the token. R5: the local wait has a ctx.Done() case returning ctx.Err(); Shutdown closes the done channel. " +
+			"R6: the lease renewal writes only by CasByVersion (it never re-creates a record: ErrNotExist also means the holder unlocked). R7: an attempt that gave the token back reports failure. " +
 			"W1/W2: in the in-memory store every mutation notifies the key's waiters and the waiter's check and registration are one critical section (no lost wake-up at the storage level).",
 		NotDecided: "absence of lost wake-ups over all schedules as such; fairness.",
 	})
@@ -43,7 +45,7 @@ func init() {
 		Technique: "static analysis: argument provenance (lease on every write), must-pass-through (arm on acquire, re-arm on renewal, silence on loss), guard dominance on error classes, plus the timer's cancel/index rules and the in-memory expiry rules the clause depends on (go/ssa)",
 		Explanation: "L1: every record passed to Create/CasByVersion has ExpiresAt = now + lease. L2: between the Create success edge and the success exit a renewal is armed with timeout.Call(fn, lease/k), k>=2, fn reaching the renewal routine with that Create's version, and stored in the Locker's timer slot. " +
 			"L3: the renewal's CAS success edge re-arms with the new version; exits after a definitive loss (ErrNotExist/ErrConflict) arm nothing and write nothing. L4: every exit of the renewal that arms nothing is dominated by a positive class test for ErrNotExist or ErrConflict (a transient error must not end the chain). " +
-			"L5: the renewal is a CAS on the Locker's key with the tenure's version. L6: the renewal does not use the acquisition's context. L7: Unlock cancels the armed timer before deleting the record. " +
+			"L8: the renewal writes only by CasByVersion; a retry after an error is armed only when both ErrNotExist and ErrConflict were excluded. L5: the renewal is a CAS on the Locker's key with the tenure's version. L6: the renewal does not use the acquisition's context. L7: Unlock cancels the armed timer before deleting the record. " +
 			"T1-T7: the timer keeps heap indices current and Cancel is guarded (C12 rules). U1-U6: a queued renewal is not slept through (C13 rules). E1/E2: the in-memory store treats an expired record as absent and bounds a parked waiter by the expiry (dead-holder clause).",
 		NotDecided: "every timing statement ('within about one lease period'), clock behaviour.",
 	})
@@ -474,6 +476,8 @@ func runC01(c *Ctx) {
 	}
 	c.R.Floor("C01.R5", 5)
 
+	c.renewalOnlyCAS(r, "C01.R7")
+	c.noSuccessAfterGiveBack(r, "C01.R8")
 	// L1: a record written with a stale or missing lease lapses under its holder and a second caller acquires
 	c.leaseOnWrite(r, "C01.L1")
 	// S: the storage the lock races on is atomic per operation and decides Create on the absent edge (in-memory backend)
@@ -681,6 +685,9 @@ func runC04(c *Ctx) {
 	}
 	// failure exits of LockWithCtx return ctx.Err(), the Create error or the helper's error (not nil): by exit classification
 
+	c.renewalOnlyCAS(r, "C04.R6")
+	c.noSuccessAfterGiveBack(r, "C04.R7")
+
 	// W: the storage-level hand-off (in-memory)
 	im := resolveInmemRoles(c)
 	c.inmemNotifyAfterMutate(im, "C04.W1")
@@ -838,6 +845,32 @@ func runC05(c *Ctx) {
 					return g != nil && (g.Name() == "ErrNotExist" || g.Name() == "ErrConflict") && ir.Resolve(call.Call.Args[0]) == errOf(cas)
 				})
 			}
+			// a renewal re-armed on the error side of the CAS must have excluded BOTH definitive losses
+			ir.Instrs(fn, func(in ssa.Instruction) {
+				tc := isTimeoutCall(in)
+				if tc == nil {
+					return
+				}
+				onErr := hasFactCmp(in.Block(), func(cm ir.Cmp) bool {
+					return cm.Op == token.NEQ && ir.Resolve(cm.X) == errOf(cas) && ir.IsNilConst(cm.Y)
+				})
+				if !onErr {
+					return
+				}
+				excluded := map[string]bool{}
+				for _, f := range ir.Facts(in.Block()) {
+					ff := f.StripNot()
+					call, ok := ff.Cond.(*ssa.Call)
+					if !ok || ff.True || !strings.HasSuffix(ir.CalleeFullName(call), "errors.Is") || len(call.Call.Args) != 2 {
+						continue
+					}
+					if g := globalOf(call.Call.Args[1]); g != nil && ir.Resolve(call.Call.Args[0]) == errOf(cas) {
+						excluded[g.Name()] = true
+					}
+				}
+				c.Decide("C05.L3", fn, "retry only after a non-definitive error", in, excluded["ErrNotExist"] && excluded["ErrConflict"],
+					"a renewal is re-armed after a CAS error without excluding ErrNotExist AND ErrConflict: after Unlock (or after another holder took over) the stale renewal keeps hitting the storage for as long as anyone holds the lock")
+			})
 			for _, ret := range ir.Returns(fn) {
 				ret := ret
 				// does some path from the CAS to this return avoid arming?
@@ -853,6 +886,8 @@ func runC05(c *Ctx) {
 			}
 		}
 	}
+
+	c.renewalOnlyCAS(r, "C05.L8")
 
 	// L7 Unlock cancels the armed timer
 	{
@@ -1003,4 +1038,71 @@ func (c *Ctx) leaseOnWrite(r *lockRoles, rule string) {
 	}
 	c.R.Floor(rule, 6)
 
+}
+
+// renewalOnlyCAS: the renewal routine (and what it calls inside the package) talks to the storage only through
+// CasByVersion: a renewal that creates, puts or deletes can resurrect or destroy a record after its tenure ended.
+func (c *Ctx) renewalOnlyCAS(r *lockRoles, rule string) {
+	seen := map[*ssa.Function]bool{}
+	var visit func(fn *ssa.Function, depth int)
+	n := 0
+	visit = func(fn *ssa.Function, depth int) {
+		if fn == nil || seen[fn] || depth > 3 || len(fn.Blocks) == 0 {
+			return
+		}
+		seen[fn] = true
+		ir.Instrs(fn, func(in ssa.Instruction) {
+			if call := r.storageCall(in, ""); call != nil {
+				n++
+				name := call.Call.Method.Name()
+				c.Decide(rule, fn, "renewal touches the record only by CasByVersion", in, name == "CasByVersion",
+					"the lease renewal calls Storage."+name+": a renewal that lost its record (ErrNotExist also means: the holder unlocked meanwhile) must not write - it would re-create or remove a record for a tenure that is over, and the lock is never free again")
+			}
+			if call, ok := in.(*ssa.Call); ok {
+				if cal := ir.StaticCallee(call); cal != nil && cal.Pkg == r.renewal.Pkg && cal != r.renewal {
+					// helpers of the package, but not the acquisition entry points
+					if cal != r.tryLock && cal != r.lock && cal != r.lockCtx && cal != r.unlock {
+						visit(cal, depth+1)
+					}
+				}
+			}
+		})
+	}
+	visit(r.renewal, 0)
+	if n == 0 {
+		c.Decide(rule, r.renewal, "renewal touches the record only by CasByVersion", nil, false, "the renewal routine makes no storage call")
+	}
+}
+
+// noSuccessAfterGiveBack: once an attempt has put the local token back it must fail (C04.R7).
+func (c *Ctx) noSuccessAfterGiveBack(r *lockRoles, rule string) {
+	n := 0
+	for _, fn := range r.lockerFns {
+		if fn == r.unlock || fn.Parent() != nil {
+			continue
+		}
+		usesHelper := false
+		for _, in := range ir.Calls(fn) {
+			if call, ok := in.(*ssa.Call); ok && r.tokenHelpers[ir.StaticCallee(call)] {
+				usesHelper = true
+			}
+		}
+		if !usesHelper {
+			continue
+		}
+		ir.Instrs(fn, func(in ssa.Instruction) {
+			if !r.tokenSend(in) {
+				return
+			}
+			n++
+			c.NoPath(rule, "an attempt that gave the token back reports failure", in, ir.Query{Fn: fn, From: in,
+				Target: func(x ssa.Instruction) bool {
+					ret, ok := x.(*ssa.Return)
+					return ok && ir.IsReturn(x) && possibleSuccessExit(fn, ret)
+				}}, "the attempt returns the local token and resets the flag (its failure epilogue) but can still report success (nil / true): the caller believes it holds the lock while it holds nothing")
+		})
+	}
+	if n == 0 {
+		c.Decide(rule, r.tryLock, "failure epilogue returns the token", nil, false, "no token send found in the acquiring functions")
+	}
 }
